@@ -321,3 +321,23 @@ PROPS['C05'] = dict(
     technique='differential execution release vs debug-assertion build + panic/range monitors over a seeded operation table; offline log diff',
     design_ref='DESIGN.md section 4, C05',
 )
+
+PROPS['C09'] = dict(
+    sub='c09',
+    quick=[S('rel'), S('dbg', 'zone_stride=6')],
+    thorough=[S('rel'), S('dbg')],
+    rule='Date: all 7,304,484 dates (Display -> FromStr, and an independent reader). Time: every second of the day x 12 nanosecond patterns, Display, {:.0/.3/.6/.9}. DateTime/Timestamp: seeded values incl. limits and every fraction length 0..9, '
+         'Display, {:.N}, DateTimePrinter options precision x separator {T,t,space} x lowercase, Timestamp::display_with_offset with whole-minute and sub-minute offsets. '
+         'Zoned: every named zone of the system database (quick: every 2nd) x the C03 probe instants (T-1ns, T, ... of every transition), both passes through every fold to the second (first 12 and last 40 folds per zone), sub-minute LMT periods, '
+         'and all 3,119 whole-minute fixed offsets; printed with Display and with reduced precision. Oracles: parse(print(x)) == x (instant, civil fields, offset, zone name and TimeZone equality); with precision N the value truncated to N digits; '
+         'a 120-line strict RFC 3339/9557 reader (expanded years) that recomputes the instant with the reference calendar; printed civil time == zone model. distinct_nontrivial = distinct seeded (datetime, timestamp) pairs (every 4th) + distinct (zone, instant) probes (every 8th)',
+    exhaustive='all dates and all seconds of a day; other value spaces are sampled',
+    floors={'quick': {'dates': 7000000, 'named_zones': 250, 'zoned_probes': 300000, 'zoned_probes_inside_folds': 20000, 'zoned_probes_sub_minute_offset': 5000, 'fixed_offset_zones': 3119},
+            'thorough': {'dates': 7000000, 'named_zones': 500, 'zoned_probes': 5000000}},
+    assumptions=COMMON_ASSUME + ['RFC 3339 cannot carry offset seconds: for sub-minute offsets the independent reader compares the civil time and the offset to within 30 s, the instant only through jiff\'s own parser',
+                                 'the reader accepts the RFC 9557 / ISO 8601 expanded year form (+-YYYYYY) that jiff prints outside 0..=9999'],
+    level_text='Round-trip and independent-reader monitoring of the real printers and parsers: exhaustive over dates and seconds of the day, boundary-biased over instants around every transition of every named zone (including both passes of folds and sub-minute LMT offsets) and over printer options.',
+    level_note='Trusted base: the strict reader in harness/src/c09.rs + cal.rs; tzref.rs for the civil time a zone prescribes. serde impls delegate to Display/FromStr and are not exercised separately (serde is not a dependency of the harness).',
+    technique='round-trip (print->parse) monitor + independent RFC 3339/9557 reader over exhaustive and boundary-biased values; release + debug-assertion builds',
+    design_ref='DESIGN.md section 4, C09',
+)
